@@ -62,6 +62,16 @@ def dbo_to_coq(I, d):
         I.s(d["cluster"]), els, coq_Z(d["ttl_days"]), I.s(d["policy"]))
 
 
+DB_NAMES = {"": 0}
+
+
+def db_index(name):
+    """database names of the harness ("vdb_a" ...) as the model's indexes; 0 = the history's only database"""
+    if name not in DB_NAMES:
+        DB_NAMES[name] = len(DB_NAMES)
+    return DB_NAMES[name]
+
+
 EMPTY_CFG = '{| cluster := ""; distributed := false; days := []; drop_days := 0; storage_policy := "" |}'
 
 
@@ -80,7 +90,23 @@ def run_to_coq(I, r):
         cfg = EMPTY_CFG
         parse = coq_list(["(%s, %s)" % (I.s(x["s"]), ("Some %s" % coq_Z(x["ns"])) if x["ok"] else "None") for x in g["parsed"]])
         dbos = coq_list([dbo_to_coq(I, d) for d in g["dbos"]])
-        if g["kind"] == "env":  # "all" and "ctrl" (the real ctrl.Rotate over TCP) are both RotateAll over the objects
+        if g["kind"] == "init":
+            env = coq_list(["(%s, %s)" % (I.s(kv["k"]), I.s(kv["v"])) for kv in g["env"]])
+            io = g["init"]
+            ncalls = io["init_calls"] + io["rotate_calls"]
+            oi = ("{| oi_panicked := %s; oi_init_calls := %d%%nat; oi_rotate_calls := %d%%nat; oi_init_first := %s; oi_same_cfg := %s; oi_projects_ok := %s |}"
+                  % (b(io["panicked"]), io["init_calls"], io["rotate_calls"], b(io["init_first"]), b(io["same_cfg"]),
+                     b(io["projects"] == ",".join(["qryn"] * ncalls))))
+            sts = []
+            for st in r.get("states") or []:
+                tb2 = {t["name"]: t for t in st["state"]["tables"]}
+                sts.append("{| os_db := %d%%nat; os_ttl := %s; os_policy := %s; os_settings := %s |}" % (
+                    db_index(st["db"]), coq_list([I.s(tb2[t]["ttl"]) for t in TABLES]), coq_list([I.s(tb2[t]["policy"]) for t in TABLES]),
+                    coq_list(["(%s, %s)" % (coq_Z(x["fp"]), I.s(x["value"])) for x in st["state"]["settings"]])))
+            kind = "(KInit %s %s %s %s %s)" % (env, b(g.get("init_fails", False)),
+                                               coq_list(["(%d%%nat, %s)" % (db_index(d.get("db", "")), dbo_to_coq(I, d)) for d in g["dbos"]]),
+                                               oi, coq_list(sts))
+        elif g["kind"] == "env":  # "all" and "ctrl" (the real ctrl.Rotate over TCP) are both RotateAll over the objects
             env = coq_list(["(%s, %s)" % (I.s(kv["k"]), I.s(kv["v"])) for kv in g["env"]])
             kind = "(KEnv %s %s %s %s)" % (env, dbos, b(g["env_err"]), coq_list([dbo_to_coq(I, d) for d in g["env_out"]]))
         else:
@@ -145,7 +171,7 @@ def strip_run(r):
     out = {"cfg": r["cfg"], "fault": r["fault"]}
     if r.get("glue") is not None:
         g = r["glue"]
-        out["glue"] = {"kind": g["kind"], "dbos": g["dbos"], "env": g.get("env") or []}
+        out["glue"] = {"kind": g["kind"], "dbos": g["dbos"], "env": g.get("env") or [], "init_fails": g.get("init_fails", False)}
     return out
 
 
@@ -284,6 +310,7 @@ import (
 	"github.com/metrico/cloki-config/config"
 	"github.com/metrico/qryn/ctrl/logger"
 	qmaint "github.com/metrico/qryn/ctrl/qryn/maintenance"
+	ctrl "verif/harness/gluectrl"
 	maintenance "verif/harness/gluemaint"
 )
 
@@ -296,6 +323,7 @@ var _ *clconfig.ClokiConfig
 var _ config.ClokiBaseDataBase
 var _ logger.ILogger
 var _ = maintenance.ConnectV2
+var _ = ctrl.Init
 
 const glueGenerated = true
 
@@ -344,13 +372,13 @@ def build_rotate(ck):
     """go build of harness/cmd/rotate with glue_gen.go replaced (overlay) by verbatim copies of rotateDB, RotateAll
     (ctrl/qryn/maintenance/maintain.go) and boolEnv, portCHEnv (main.go) of the repository under test"""
     parts, missing = [], []
-    for rel, names in (("ctrl/qryn/maintenance/maintain.go", ["rotateDB", "RotateAll"]), ("main.go", ["boolEnv", "portCHEnv"])):
+    for rel, names in (("ctrl/qryn/maintenance/maintain.go", ["rotateDB", "RotateAll"]), ("main.go", ["boolEnv", "portCHEnv", "initDB"])):
         src = open(os.path.join(vcheck.REPO, rel)).read()
-        order, texts, miss = extract_closure(src, names, skip=("main", "init", "initFlags", "initDB", "initPyro", "httpStart"))
+        order, texts, miss = extract_closure(src, names, skip=("main", "init", "initFlags", "initPyro", "httpStart"))
         missing += ["%s: func %s" % (rel, n) for n in miss]
         parts += ["// ---- %s: func %s\n%s" % (rel, n, texts[n]) for n in order]
     if missing:
-        ck.obligation("glue functions found in the repository (rotateDB, RotateAll, boolEnv, portCHEnv)", False, "; ".join(missing))
+        ck.obligation("glue functions found in the repository (rotateDB, RotateAll, boolEnv, portCHEnv, initDB)", False, "; ".join(missing))
         return False
     gdir = os.path.join(vcheck.BUILD, "gen", vcheck.repo_tag())
     os.makedirs(gdir, exist_ok=True)
@@ -519,14 +547,22 @@ def run_rotate(ck):
                 if ns % 10**9 != 0:
                     k += "+fraction"
                 dur[k] = dur.get(k, 0) + 1
-    glue = {"timeouts_parsed": 0, "timeouts_refused": 0, "blank_elements": 0, "runs_all": 0, "runs_env": 0, "env_refused": 0,
+    glue = {"timeouts_parsed": 0, "timeouts_refused": 0, "blank_elements": 0, "runs_all": 0, "runs_env": 0, "runs_init": 0, "env_refused": 0,
             "runs_with_several_databases": 0, "samples_days_texts": {}}
     for c in cases:
         for r in c["runs"]:
             g = r.get("glue")
             if not g:
                 continue
-            glue["runs_env" if g["kind"] == "env" else "runs_all"] += 1
+            glue["runs_env" if g["kind"] == "env" else "runs_init" if g["kind"] == "init" else "runs_all"] += 1
+            if g["kind"] == "init":
+                io = g["init"]
+                names = [d.get("db", "") for d in g["dbos"]]
+                for k, cond in (("init_several_databases", len(set(names)) > 1), ("init_database_named_twice", len(set(names)) < len(names)),
+                                ("init_panicked", io["panicked"]), ("init_skipped_by_key", io["init_calls"] == 0 and not io["panicked"]),
+                                ("init_refused_key", io["init_calls"] == 0 and io["panicked"]), ("init_ctrl_Init_failed", bool(g.get("init_fails"))),
+                                ("init_OMIT_CREATE_TABLES_set", any(kv["k"] == "OMIT_CREATE_TABLES" for kv in g["env"]))):
+                    glue[k] = glue.get(k, 0) + (1 if cond else 0)
             glue["runs_through_real_ctrl_Rotate_over_tcp"] = glue.get("runs_through_real_ctrl_Rotate_over_tcp", 0) + (1 if g["kind"] == "ctrl" else 0)
             glue["env_refused"] += 1 if g.get("env_err") else 0
             glue["runs_with_several_databases"] += 1 if len(g["dbos"]) > 1 else 0
@@ -549,7 +585,9 @@ def run_rotate(ck):
                             "sub-second, negative and beyond-int32 values, disks, storage policy present/absent, clustered or not), configuration "
                             "changes/reverts between runs, faults at call indexes (with and without effect); fault-at-every-index families; legacy "
                             "settings layouts; runs through RotateAll/rotateDB (good, bad and blank ttl_policy timeouts, several databases) and "
-                            "through portCHEnv (SAMPLES_DAYS / port / key texts); 2-3 concurrent Rotate goroutines under random schedules (same or "
+                            "through portCHEnv (SAMPLES_DAYS / port / key texts); process starts through func initDB of package main (1-3 configured "
+                            "databases each with its own state on the fake server, the variable boolEnv reads, a failing ctrl.Init); server clocks where "
+                            "only executed SELECTs/ALTERs take time and ties are answered either way; 2-3 concurrent Rotate goroutines under random schedules (same or "
                             "different configurations, crashed instances, completing runs); server clock 1 us .. 1.5 s per statement; "
                             "non-trivial = (>= 2 runs or concurrent instances) and >= 1 ALTER; distinct by content. ")
     ck.extra["input_distribution"] = {"classes": hist, "runs": nruns, "runs_ended_by_fault": nfault,
@@ -566,8 +604,9 @@ def run(ck):
         "C19: ClickHouse itself is modelled: ALTER ... MODIFY TTL / MODIFY SETTING storage_policy set the table's value; the settings table is rows stamped with inserted_at (NOW() = whole seconds, now64(9) = nanoseconds) and the settings query answers the value of a row with the greatest stamp (the fake: the first inserted among equals; theorem settings_read_is_last_write: with strictly increasing stamps the answer is the last insert); the server clock advances between two statements of one connection; reads through settings_dist see the rows written to settings",
         "C19: a fault is an error returned by one call, with or without the statement having taken effect; a crash is a fault after which nothing else runs; concurrent instances crash by never issuing another statement",
         "C19: time.ParseDuration is an oracle of the model (any function); the harness reports what the real one returned for each timeout text",
-        "C19: rotateDB, RotateAll, boolEnv and portCHEnv are compiled into the harness as verbatim copies cut out of the repository under test (top-level func ... closing brace at column 0), with maintenance.ConnectV2 replaced by a function handing out the fake connection",
-        "C19: the fake native-protocol server (harness/cmd/rotate/tcp.go) answers the hello / query / data / ping packets of clickhouse-go v2 and recognises the client's bound statement texts by regular expressions; all configured databases share one fake database state",
+        "C19: rotateDB, RotateAll, boolEnv, portCHEnv and initDB are compiled into the harness as verbatim copies cut out of the repository under test (top-level func ... closing brace at column 0), with maintenance.ConnectV2 replaced by a function handing out the fake connection (rotateDB copy) and, for initDB, package ctrl replaced by a stand-in whose Rotate IS the real ctrl.Rotate and whose Init only records the call (schema creation and migrations are property C18's); that main calls initDB(cfg) after portEnv is read off main.go by the C20 translator only",
+        "C19: the fake native-protocol server (harness/cmd/rotate/tcp.go) answers the hello / query / data / ping packets of clickhouse-go v2 and recognises the client's bound statement texts by regular expressions; a database is selected by the database name of the connection's hello packet (names vdb_*: a state of its own; any other name: the history's one database)",
+        "C19: the settings rows: theorem stamped_rows_refine_the_map needs the server clock never to go back and to advance over every executed SELECT and ALTER (nothing is asked of INSERTs); nondecreasing_clock_is_not_enough shows that less does not suffice (two statements of one group inside the same now64(9) nanosecond)",
         "C19: disk names containing '%' or a quote (MoveTo is spliced into a Sprintf format and into SQL) are outside the generator",
     ]
     ck.coq_props()
